@@ -671,8 +671,9 @@ type foCfg struct {
 	logger          int // 0 nil, 1 error-only, 2 full
 	stats           bool
 	observeMut      bool
-	boxVals         bool // interface{} frontends cache the tokens inside a slice (uncomparable dynamic type)
-	noiseBackendCfg bool // a BackendConfig is passed next to Backend (documented to apply only without a Backend)
+	boxVals         bool          // interface{} frontends cache the tokens inside a slice (uncomparable dynamic type)
+	noiseBackendCfg bool          // a BackendConfig is passed next to Backend (documented to apply only without a Backend)
+	backendDEA      time.Duration // DeleteExpiredAfter of the real backend (0 = out of reach); its janitor never runs
 	backendTTL      time.Duration
 }
 
@@ -735,9 +736,15 @@ func newWorld(c *Case, cfg foCfg) *world {
 		realStats = w.ct
 	}
 
+	dea := farFuture
+	if cfg.backendDEA != 0 {
+		dea = cfg.backendDEA
+		c.Class("backend-DeleteExpiredAfter=short")
+	}
+
 	w.be = newCaseBackend(c, kind, cache.Config{
 		Name: "real", Stats: realStats, TimeToLive: cfg.backendTTL, ExpirationJitter: -1,
-		DeleteExpiredJobInterval: farFuture, DeleteExpiredAfter: farFuture, ItemsCountReportInterval: farFuture,
+		DeleteExpiredJobInterval: farFuture, DeleteExpiredAfter: dea, ItemsCountReportInterval: farFuture,
 	})
 
 	if cfg.boxVals && cfg.variant != 2 {
